@@ -23,7 +23,7 @@ def simulate(kind, cat, rkind, rcat, num, depth, seed, n=4):
     wd = scratch("world")
     os.makedirs(os.path.join(wd, "tr"))
     r = run_tlc("MC_World", cfg=dict(spec="Spec", constants=dict(Kind=kind, Elems="<- " + cat, RKind=rkind, RElems="<- " + rcat, N=n, MaxOps=depth), invariants=["RowsSane"]),
-                workers=1, simulate=f"file={wd}/tr/b,num={num}", depth=depth + 2, seed=seed, timeout=1200)
+                workers=1, simulate=f"file={wd}/tr/b,num={num}", depth=depth + 2, seed=seed, timeout=3000)
     behaviours = []
     for f in sorted(glob.glob(os.path.join(wd, "tr", "*"))):
         text = open(f).read()
